@@ -36,7 +36,7 @@ class MirSyntaxError(Exception):
 
 
 class Function:
-    __slots__ = ('name', 'args', 'ret', 'locals', 'blocks', 'kind', 'src')
+    __slots__ = ('name', 'args', 'ret', 'locals', 'blocks', 'kind', 'src', 'literal')
 
     def __init__(self, name, kind):
         self.name = name
@@ -46,6 +46,7 @@ class Function:
         self.locals = {}
         self.blocks = {}
         self.src = None
+        self.literal = None
 
     def __repr__(self):
         return '<mir %s %s (%d blocks)>' % (self.kind, self.name, len(self.blocks))
@@ -530,6 +531,14 @@ def parse_file(path):
                     if m:
                         cur = Function(m.group(1), 'const')
                         cur.ret = m.group(2)
+                        continue
+                    # `const WIDTH: usize = const 256_usize;` - a literal constant is printed on one line
+                    m = re.match(r'^(?:const|static) (.+?): (.+?) = const (.+);$', line)
+                    if m:
+                        f = Function(m.group(1), 'const')
+                        f.ret = m.group(2)
+                        f.literal = m.group(3)
+                        fns.append(f)
                     continue
                 continue
             # inside an item
